@@ -96,9 +96,11 @@ def run(tier):
             "offset-0 events inside subscribe() (hand-driven observables and from_iterable / throw / never), subscribed with "
             "scheduler=ImmediateScheduler() (re-entrant hand-over) and with the default trampoline; compared on notifications "
             "in order, order of source subscriptions, open-after-terminal, every terminated source released, the source in "
-            "progress NOT released, callback arguments")
+            "progress NOT released, callback arguments; scenarios with take(cut) whose cut-th element arrives after something "
+            "asynchronous are the dispose-inside-delivery dimension (through take and through an explicit dispose() in on_next): "
+            "no source may be pulled / subscribed and no callback called after the dispose")
     ck.note("not_compared", ["order of unsubscribe(previous) vs subscribe(next) inside one instant",
-                             "untimed replay: instants; take() and unbounded counts over synchronous sources (C14)"])
+                             "untimed replay: instants; a dispose issued while the operator's own subscribe() call is still on the stack (C14)"])
     for g in main[:: max(1, len(main) // 5)][:5]:
         ck.sample({"scn": g[0], "allowed": g[1]})
     ck.assumptions = ["TestScheduler/VirtualTimeScheduler run actions in due order, FIFO at equal instants (C28)",
